@@ -189,11 +189,13 @@ class CallMixin:
             raise Unsupported("min/max of non-int sequence")
         n = seq.ty.len(seq.t)
         self.check(st, n > 0, "ValueError(min/max of empty)", node)
-        r = z3.Int(fresh_name("mm"))
-        i, j = z3.Int(fresh_name("i")), z3.Int(fresh_name("j"))
+        # inside a comprehension / quantifier the result and its witness position are functions of the bound variables
+        r = self.fresh_q(z3.IntSort(), "mm")
+        j = self.fresh_q(z3.IntSort(), "mmpos")
+        i = z3.Int(fresh_name("i"))
         arr = seq.ty.arr(seq.t)
-        st.assume(z3.ForAll([i], z3.Implies(z3.And(0 <= i, i < n), (r <= arr[i]) if is_min else (r >= arr[i])), patterns=[arr[i]]))
-        st.assume(z3.Implies(n > 0, z3.And(0 <= j, j < n, arr[j] == r)))
+        self.assume_q(st, z3.ForAll([i], z3.Implies(z3.And(0 <= i, i < n), (r <= arr[i]) if is_min else (r >= arr[i])), patterns=[arr[i]]), r)
+        self.assume_q(st, z3.Implies(n > 0, z3.And(0 <= j, j < n, arr[j] == r)), r)
         return SV(r, T.Int)
 
     def bi_sum(self, node, st, want):
